@@ -803,6 +803,7 @@ func init() {
 		ID:    "C17",
 		Level: "fault_enumeration",
 		Rule: "fault points on compressed FASTA/FASTQ files (gzip, bzip2, xz, zstd; one member/frame each; 1..3000 records): truncation at byte k (every k from 6 for files up to 40 bytes in quick / 4 KiB in thorough, else the first and last 12 offsets plus 40/200 sampled ones), single bit flips (every bit up to 1 KiB in thorough, sampled otherwise), through obiconvert / obicount / obigrep with a file argument and, for gzip, obiconvert reading stdin; plus the four Read* functions over a reader returning a non-EOF error after k bytes (helper process). Oracle: exit status (truncation, read error => non-zero; bit flip => non-zero or output identical to the intact run). " +
+			"Added later: decoder-error oracle for bit flips, forced-format and two-file targets (after a plain file and after an intact file of the same codec), damaged mate file, compressed EMBL/GenBank, read errors delivered alone / with data / once only, files of 2-3 MiB and long reads, gzip/zstd streams flushed between records and cut at the flush points, the xz block-header-size bits on every target, AddressSanitizer runs of the stdin (C) reader; a process killed by a memory fault is a violation. " +
 			"distinct_nontrivial = distinct (fault kind, codec or format, command+transport, size class, region header/body/trailer) classes exercised",
 		Assume:        []string{"each compressed file is a single member/frame, so every proper prefix of at least 6 bytes is an invalid stream", "stdin is only exercised with gzip (the stdin reader is zlib based)"},
 		Subs:          subs,
